@@ -28,6 +28,8 @@ pub struct Trace {
     pub max_runnable: usize,
     pub tasks_seen: u32,
     pub replay_diverged: bool,
+    /// The (step, task) decisions that differ from what the calm policy would have chosen at that step.
+    pub vs_calm: Vec<(u32, u32)>,
 }
 
 pub struct SimScheduler {
@@ -130,6 +132,9 @@ impl Scheduler for SimScheduler {
         };
 
         let mut tr = self.trace.borrow_mut();
+        if Self::calm(&ids, cur, is_yielding) != choice {
+            tr.vs_calm.push((step, choice as u32));
+        }
         tr.decisions.push(choice as u32);
         tr.max_runnable = tr.max_runnable.max(ids.len());
         tr.tasks_seen = tr.tasks_seen.max(*ids.iter().max().unwrap() as u32 + 1);
